@@ -13,7 +13,7 @@ from .. import kd
 
 ID = "C05"
 KINDS = ["hodge", "axiom", "polarity", "rp", "rp-identity", "select"]
-RULE = ("case = (algebra config d<=6: every kind of signature incl. r=0, r=1, r>=2, default / random custom / named bases "
+RULE = ("case = (algebra config d<=7 (d=7: lazily filled sign table, <=6 stored blades): every kind of signature incl. r=0, r=1, r>=2, default / random custom / named bases "
         "whose pseudoscalar may be spelled with odd parity, kind in {hodge round trip, blade axiom E^hodge(E)=pss, polarity, "
         "regressive product, pss identity, dual()/undual() selection}, ordered key tuples, generic or Fraction coefficients). "
         "Non-trivial = d>=2 and the operand stores >= 2 grades (for the blade axiom: a blade of grade 1..d-1). "
@@ -37,11 +37,11 @@ def budget(tier):
 @st.composite
 def _cases(draw, dmax):
     kind = draw(st.sampled_from(KINDS))
-    cfg = draw(S.configs(0, dmax, custom=0.3, named=True, dweights=[0, 1, 2, 2, 3, 3, 3, 4, 4, 4] + [5, 6] * (dmax >= 6)))
+    cfg = draw(S.configs(0, 7, custom=0.3, named=True, dweights=[0, 1, 2, 2, 3, 3, 3, 4, 4, 4, 5, 6, 7]))
     d = len(cfg["sig"])
     if cfg.get("basis") and d > 5 and not cfg.get("named"):
         cfg["basis"] = None
-    cap = None if d <= 4 else (12 if kind in ("rp", "polarity") else 24)
+    cap = None if d <= 4 else ((12 if kind in ("rp", "polarity") else 24) if d <= 6 else 6)
     a = draw(S.operand(d, max_len=cap))
     b = draw(S.operand(d, max_len=cap)) if kind == "rp" else None
     return {"cfg": cfg, "kind": kind, "a": a, "b": b, "mode": draw(st.sampled_from(["generic", "frac"])),
